@@ -164,6 +164,9 @@ func Main() {
 	r.Assume("after Commit the StateDB is discarded and the state is reopened with state.New (documented contract of trie.Commit)")
 	r.Assume("the transaction context (Prepare: tx hash, tx index) is not state: it is set only at transaction boundaries and a Copy starts with a fresh one")
 	r.Assume("address 0x03 (RIPEMD touch exception, deliberately non-atomic) is not used")
+	r.Assume("no two commits of a history have the same state root when a snapshot tree is kept (a fifth block-counter account gets a history-wide unique nonce before every Commit): snapshot.Tree is keyed by root and cannot represent a chain that returns to an earlier root or two sibling blocks with one root")
+	r.Assume("snapshot layers are flattened by calling Tree.Cap(root, 0..2) (StateDB.Commit itself uses 128) and only along the chain of the first StateDB of the history; forks commit into the tree and are read back through it, but are not capped")
+	r.Assume("go-ethereum v1.9.15 core/state runs in lock-step for the operations it has (no access list, no transient storage) with two compensations for defects repaired upstream later (resetObjectChange.dirtied()==nil; balance carried over from an already deleted object); it only arbitrates, it never raises a violation by itself")
 	r.Cases("corpus", len(corpusList)*len(corpusFlavours), core.Opts{}, corpus)
 	r.Cases("getter-side-effects", len(getterList), core.Opts{}, func(c *core.Case) {
 		sc := getterList[c.I%len(getterList)]
